@@ -76,8 +76,18 @@ func dump(i int, t reflect.Type) {
 '''
 
 
+def embeds_generic(t):
+    """does the term contain a struct that embeds an instantiated generic type (directly or by pointer)?"""
+    if t[0] == 'st':
+        for (name, emb, tag, ft) in t[1]:
+            base = ft[1] if ft[0] == 'p' else ft
+            if emb and base[0] == 'n' and base[3]:
+                return True
+    return any(embeds_generic(x) for x in tg._children(t))
+
+
 def gen_types(rng, n):
-    out = [("corpus", s) for s in CORPUS]
+    out = [("corpus", s, None) for s in CORPUS]
     g = tg.Gen(rng, home="r", allow_local=False)
     while len(out) < n:
         try:
@@ -86,7 +96,7 @@ def gen_types(rng, n):
             continue
         if not tg.valid(t):
             continue
-        out.append(("generated", tg.render(t, "r")))
+        out.append(("generated", tg.render(t, "r"), t))
     return out
 
 
@@ -114,7 +124,7 @@ def run(ctx, args):
     modeld = build_driver(ctx, "modeld_c15")
     harness = build_go_harness(ctx, "c15")
     types_ = gen_types(rng, n)
-    decls = ["var V%d %s" % (i, src) for i, (_, src) in enumerate(types_)]
+    decls = ["var V%d %s" % (i, t[1]) for i, t in enumerate(types_)]
     stats, samples = {}, []
     evaluations = 0
     nontrivial = set()
@@ -288,7 +298,16 @@ def ir_tie(ctx, types_, descs, stats, corr_bad):
     import glob
     quick = ctx.tier == "quick"
     m = 250 if quick else 3000
-    pick = sorted(descs)[:len(CORPUS)] + sorted(descs)[len(CORPUS):][:m]
+    # llgo itself panics ("invalid recv type") on an unnamed struct that embeds a generic instance with methods as soon as
+    # its descriptor is needed (known finding emit:struct-embedding-generic-instance, witness built in the thorough tier): keep
+    # those shapes out of the package whose IR is read back
+    # and a package that spells one generic instance both as G[byte] and G[uint8] does not link (C07 known finding
+    # diffname:targ-basic-spelling): keep byte/rune out of generic instances here
+    def spelled_alias_in_instance(src):
+        return re.search(r'\b[GH]\[', src) is not None and re.search(r'\b(byte|rune)\b', src) is not None
+    rest = [i for i in sorted(descs)[len(CORPUS):] if not (types_[i][2] is not None and embeds_generic(types_[i][2])) and not spelled_alias_in_instance(types_[i][1])]
+    stats["ir-tie:skipped-struct-embedding-generic-instance"] = len(descs) - len(CORPUS) - len(rest)
+    pick = [i for i in sorted(descs)[:len(CORPUS)] if not spelled_alias_in_instance(types_[i][1])] + rest[:m]
     decls = ["var V%d %s" % (i, types_[i][1]) for i in pick]
     keep = "var Keep = []any{\n" + "".join("\t&V%d,\n" % i for i in pick) + "}\n"
     d = os.path.join(ctx.scratch, "irprog")
